@@ -77,7 +77,7 @@ CHECKS = {
          "Every conversion in every history must be answered entirely by one zone: the zone the environment names now when the conversion runs on a new thread or at least 1 s (+60 ms margin) after the last change, otherwise any zone that was in force during the last second. Custom zone files have pairwise different offsets before/after a common transition so a single answer identifies the zone; wall-clock probes lie inside their gaps/folds so a mixed answer is visible. The wall clock is only a stimulus: inside the window both answers are accepted, so jitter cannot raise an alarm. The whole history shrinks as one value (bounded shrink budget because each run costs real sleeps).",
          "Trusted base: R-zone and the 60-line interpreter in harness/src/props/c18.rs. Sandbox limit: /etc/localtime is Etc/UTC, so the system-zone and UTC fallbacks coincide. Races between set_var and a concurrent conversion are outside this technique (and outside safe Rust's contract for set_var).",
          "DESIGN.md section 3 C18"),
- "C19": ("exhaustive enumeration (7 weekdays, 12 months, 128x128 sets, 128x7x128 iteration interleavings, all name/letter-case masks, all integers in +/-70000 and 2^k neighbourhoods) + proptest integers/strings, against modular arithmetic and a bit/deque set model",
+ "C19": ("exhaustive enumeration (7 weekdays, 12 months, 128x128 sets, 128x7x128 iteration interleavings, all name/letter-case masks, all integers in +/-70000 and 2^k neighbourhoods, Month::num_days over every supported year x 12 months) + proptest integers/strings/from_array lists of 0..=24 entries, against modular arithmetic, R-cal and a bit/deque set model",
          "The finite part (cycles, numbering, all pairs of weekday sets, every front/back interleaving of every set from every start day, every letter-case variant, prefix and one-letter extension of every name) is enumerated completely on every run; numeric conversions are checked for every FromPrimitive entry point on enumerated neighbourhoods and random i64/u64 values biased to values congruent to valid numbers modulo 2^8/2^16/2^32; strings by mutation and arbitrary Unicode including case-folding look-alikes.",
          "Trusted base: literal name tables and modular arithmetic in harness/src/props/c19.rs.",
          "DESIGN.md section 3 C19"),
